@@ -131,6 +131,30 @@ def generate(repo):
     need(m and m.group(1) == m.group(2), "edit_distance.rs: the u8-row threshold test changed")
     threshold = int(m.group(1))
 
+    # ---- the LIFETIME of a LintGroup (Model/C05Life.v): its caches and its RandomState live and die with the instance ----
+    lg = rd("harper-core/src/linting/lint_group.rs")
+    lgc = "\n".join(l for l in lg.split("\n") if not l.lstrip().startswith("//"))
+    nlg = norm(lgc)
+    need("use foldhash::quality::RandomState;" in lgc, "lint_group.rs: RandomState is no longer foldhash::quality::RandomState")
+    m = re.search(r"((?:#\[[^\]]*\]\s*)*)pub struct LintGroup \{(.*?)\n\}", lgc, re.S)
+    need(m, "lint_group.rs: struct LintGroup not found")
+    need("Clone" not in m.group(1), "lint_group.rs: LintGroup became Clone (a clone would share the seed and copy the caches)")
+    fields = norm(m.group(2))
+    need("chunk_pattern_cache: LruCache<(CharString, u64, u64), Vec<Lint>>, hasher_builder: RandomState," in fields,
+         "lint_group.rs: the fields chunk_pattern_cache / hasher_builder of LintGroup changed")
+    need(len(re.findall(r"\bhasher_builder\b", lgc)) == 4, "lint_group.rs: hasher_builder is expected exactly 4 times (field, RandomState::default() in empty(), hash_one(&self.config), build_hasher())")
+    need(len(re.findall(r"\bchunk_pattern_cache\b", lgc)) == 4, "lint_group.rs: chunk_pattern_cache is expected exactly 4 times (field, LruCache::new in empty(), get, put)")
+    need(re.search(r"pub fn empty\(\) -> Self \{ Self \{ config: LintGroupConfig::default\(\), linters: BTreeMap::new\(\), pattern_linters: BTreeMap::new\(\), chunk_pattern_cache: LruCache::new\(NonZero::new\(\d+\)\.unwrap\(\)\), hasher_builder: RandomState::default\(\), \} \}", nlg),
+         "lint_group.rs: LintGroup::empty() no longer builds an empty cache and a RandomState::default()")
+    need(len(re.findall(r"\bhasher_builder:", lgc)) == 2 and len(re.findall(r"\bchunk_pattern_cache:", lgc)) == 2,
+         "lint_group.rs: LintGroup is constructed by a struct literal outside empty()")
+    need("let config_hash = self.hasher_builder.hash_one(&self.config);" in nlg and "let mut hasher = self.hasher_builder.build_hasher();" in nlg,
+         "lint_group.rs: the two key hashes no longer go through self.hasher_builder")
+    wl = rd("harper-wasm/src/lib.rs")
+    need("fn synchronize_lint_dict(&mut self) { let mut lint_config = self.lint_group.config.clone(); self.dictionary = Self::construct_merged_dict(self.user_dictionary.clone()); "
+         "self.lint_group = LintGroup::new_curated_empty_config(self.dictionary.clone(), self.dialect.into()); self.lint_group.config.merge_from(&mut lint_config); }" in norm(re.sub(r"//[^\n]*", "", wl)),
+         "harper-wasm lib.rs: synchronize_lint_dict no longer builds a NEW LintGroup over the new merged dictionary and merges the old configuration")
+
     kinds = sorted(KNOWN.items())
     lines = ["(* GENERATED by tools/tables/c05statics.py from the Rust sources of /repo — do not edit.",
              "   Every static (thread_local!, lazy_static!, static) outside #[cfg(test)] in the harper-* crates, classified; the",
@@ -145,5 +169,10 @@ def generate(repo):
               "(* const EXPECTED_DISTANCE: u8 (fst_dictionary.rs): the distance of the one builder a fresh thread holds *)",
               "Definition c05_expected_distance : nat := %d." % expected,
               "(* edit_distance_min_alloc: inputs longer than this take edit_distance_long, which does not touch the buffers *)",
-              "Definition c05_u8_row_threshold : nat := %d." % threshold, ""]
+              "Definition c05_u8_row_threshold : nat := %d." % threshold,
+              "(* lint_group.rs: LintGroup holds `hasher_builder: RandomState`, set to RandomState::default() by the one constructor empty();",
+              "   both key hashes go through it; LintGroup is not Clone; harper-wasm's synchronize_lint_dict assigns a new LintGroup:",
+              "   number of places that read the instance's hasher (hash_one(&self.config), build_hasher()) *)",
+              "Definition c05_hasher_per_instance : bool := true.",
+              "Definition c05_hasher_uses : nat := 2.", ""]
     return "\n".join(lines)
